@@ -259,15 +259,15 @@ def shape_quad_toCubicBezier : String := "CubicBezier"
 end Gen
 
 /-- evaluation at K = ℚ for the correspondence driver -/
-def Gen.dispatchEval (tbl : FnTable) (name : String) (args : List ℚ) : Option (List ℚ) :=
-  match name, args with
-  | "point_lerp", [a0, a1, a2, a3, a4] => some (Gen.point_lerp a0 a1 a2 a3 a4)
-  | "line_pointAtTime", [a0, a1, a2, a3, a4] => some (Gen.line_pointAtTime a0 a1 a2 a3 a4)
-  | "quad_pointAtTime", [a0, a1, a2, a3, a4, a5, a6] => some (Gen.quad_pointAtTime a0 a1 a2 a3 a4 a5 a6)
-  | "cubic_pointAtTime", [a0, a1, a2, a3, a4, a5, a6, a7, a8] => some (Gen.cubic_pointAtTime a0 a1 a2 a3 a4 a5 a6 a7 a8)
-  | "line_splitAtTime", [a0, a1, a2, a3, a4] => some (Gen.line_splitAtTime a0 a1 a2 a3 a4)
-  | "quad_splitAtTime", [a0, a1, a2, a3, a4, a5, a6] => some (Gen.quad_splitAtTime a0 a1 a2 a3 a4 a5 a6)
-  | "cubic_splitAtTime", [a0, a1, a2, a3, a4, a5, a6, a7, a8] => some (Gen.cubic_splitAtTime a0 a1 a2 a3 a4 a5 a6 a7 a8)
-  | "quad_derivative", [a0, a1, a2, a3, a4, a5] => some (Gen.quad_derivative a0 a1 a2 a3 a4 a5)
-  | "cubic_derivative", [a0, a1, a2, a3, a4, a5, a6, a7] => some (Gen.cubic_derivative a0 a1 a2 a3 a4 a5 a6 a7)
-  | _, _ => none
+def Gen.dispatchEval (tbl : FnTable) (name : String) (a : List ℚ) : Option (List ℚ) :=
+  match name with
+  | "point_lerp" => if a.length = 5 then some (Gen.point_lerp (a.getD 0 0) (a.getD 1 0) (a.getD 2 0) (a.getD 3 0) (a.getD 4 0)) else none
+  | "line_pointAtTime" => if a.length = 5 then some (Gen.line_pointAtTime (a.getD 0 0) (a.getD 1 0) (a.getD 2 0) (a.getD 3 0) (a.getD 4 0)) else none
+  | "quad_pointAtTime" => if a.length = 7 then some (Gen.quad_pointAtTime (a.getD 0 0) (a.getD 1 0) (a.getD 2 0) (a.getD 3 0) (a.getD 4 0) (a.getD 5 0) (a.getD 6 0)) else none
+  | "cubic_pointAtTime" => if a.length = 9 then some (Gen.cubic_pointAtTime (a.getD 0 0) (a.getD 1 0) (a.getD 2 0) (a.getD 3 0) (a.getD 4 0) (a.getD 5 0) (a.getD 6 0) (a.getD 7 0) (a.getD 8 0)) else none
+  | "line_splitAtTime" => if a.length = 5 then some (Gen.line_splitAtTime (a.getD 0 0) (a.getD 1 0) (a.getD 2 0) (a.getD 3 0) (a.getD 4 0)) else none
+  | "quad_splitAtTime" => if a.length = 7 then some (Gen.quad_splitAtTime (a.getD 0 0) (a.getD 1 0) (a.getD 2 0) (a.getD 3 0) (a.getD 4 0) (a.getD 5 0) (a.getD 6 0)) else none
+  | "cubic_splitAtTime" => if a.length = 9 then some (Gen.cubic_splitAtTime (a.getD 0 0) (a.getD 1 0) (a.getD 2 0) (a.getD 3 0) (a.getD 4 0) (a.getD 5 0) (a.getD 6 0) (a.getD 7 0) (a.getD 8 0)) else none
+  | "quad_derivative" => if a.length = 6 then some (Gen.quad_derivative (a.getD 0 0) (a.getD 1 0) (a.getD 2 0) (a.getD 3 0) (a.getD 4 0) (a.getD 5 0)) else none
+  | "cubic_derivative" => if a.length = 8 then some (Gen.cubic_derivative (a.getD 0 0) (a.getD 1 0) (a.getD 2 0) (a.getD 3 0) (a.getD 4 0) (a.getD 5 0) (a.getD 6 0) (a.getD 7 0)) else none
+  | _ => none
